@@ -199,6 +199,18 @@ CARRIERS = [
     "d\u00e9f = '\u00e9' if \u00e9 else $\u00c9COLE\n",
     "x = '" + "a" * 300 + "'\n",
     "n" * 200 + " = 1\n",
+    # multi-line reported nodes whose last line is much longer than their first (a column of one line applied to another)
+    "x = {1: 2, (a,\n      bbbbbbbbbbbbbbbbbbbbbbbbbbbbbbbbbbbb)}\n",
+    "(a,\n bbbbbbbbbbbbbbbbbbbbbbbbbbbbbbbbbbbbbb()) = 1\n",
+    "del (a,\n   bbbbbbbbbbbbbbbbbbbbbbbbbbbbbbbbbbbb())\n",
+    "f(a for a in b,\n  cccccccccccccccccccccccccccccccccccccc)\n",
+    "x = (\"a\"\n  \"bbbbbbbbbbbbbbbbbbbbbbbbbbbbbbbbbbbbbbbbbb\") = 1\n",
+    "x = {\"a\"\n \"bbbbbbbbbbbbbbbbbbbbbbbbbbbbbbbbbbbbbbbbbbbb\"}, {1: 2, \"c\"\n   \"ddddddddddddddddddddddddddddd\"}\n",
+    "for (a,\n   bbbbbbbbbbbbbbbbbbbbbbbbbbbbbbbbbbbbbbbbbb()) in x: pass\n",
+    "with a as (b,\n    cccccccccccccccccccccccccccccccccccc()): pass\n",
+    # xonsh nodes as the target of node-located diagnostics
+    "x? = 1\n", "del x??\n", "p'/tmp' = 1\n", "for x? in y: pass\n", "with a as p'b': pass\n", "(x? := 1)\n",
+    "$(ls) = 1\n", "del ![a]\n", "@(x) = 1\n", "g`*.py` = 1\n", "f!(x) = 1\n", "$X += $(y) = 2\n",
     # version-gated constructs
     "try:\n    pass\nexcept* E:\n    pass\n",
     "type X = int\n",
@@ -230,6 +242,17 @@ def padded(text: str, k: int) -> str:
     """The record stored after k lines of other content (valid statements, blank and comment lines, a
     multi-line bracket, a multi-line string)."""
     return "".join(PAD_LINES[:k]) + text
+
+
+WIDE_PREFIX = "'\u20ac\u20ac\u20ac\u20ac\u20ac\u20ac\u20ac\u20ac\u20ac\u20ac\u20ac\u20ac'; "
+
+
+def widened(text: str) -> str | None:
+    """The record with a statement of multi-byte characters in front of it on the same line (a column counted in
+    bytes then overshoots the line).  Only for records that start at column 0 on every line."""
+    if not text or text[0] in " \t#\n" or any(ln[:1] in (" ", "\t") for ln in text.split("\n")[1:]):
+        return None
+    return WIDE_PREFIX + text
 
 
 def carrier_texts() -> list[str]:
